@@ -220,11 +220,11 @@ def adept_tu():
     return p
 
 
-def cxx(src, out, flags="", libs="", timeout=900, std="c++11", single_tu=True, compiler="g++"):
+def cxx(src, out, flags="", libs="", timeout=900, std="c++11", single_tu=True, compiler="g++", hooks=True):
     """compile a harness against the CURRENT /repo sources (one translation unit, hooks on)"""
     inc = "-I%s/include -I%s/adept" % (REPO, REPO)
     tu = "-include %s" % adept_tu() if single_tu else ""
-    cmd = "%s -std=%s -D%s %s %s %s %s -o %s %s" % (compiler, std, GUARD, flags, inc, tu, src, out, libs)
+    cmd = "%s -std=%s %s %s %s %s %s -o %s %s" % (compiler, std, ("-D" + GUARD) if hooks else "", flags, inc, tu, src, out, libs)
     rc, so, se = sh(cmd, timeout=timeout)
     return rc == 0, cmd, (so + se)[-4000:]
 
